@@ -152,6 +152,11 @@ func C19(c *core.Ctx) {
 	c.Trusted("Go race detector as observer of unordered memory accesses", "verif hooks (Emit under a mutex with a global sequence number; StageDay emitted by the stage that owns the Day)", "TLC + Json module")
 	c.MC("Pipeline", c.TierCfg("MC_Pipeline"), 16, 30*time.Minute)
 	c.MC("Loader", c.TierCfg("MC_Loader"), 16, 30*time.Minute)
+	// Ledger x pipeline discipline: every interleaving of the six balance stages over the days of a
+	// small valued journal ends with the sequential result (report, stage states, failure flag)
+	for id := 1; id <= c.Pick(2, 6); id++ {
+		c.MC("Knut", fmt.Sprintf("MC_Knut_%d.cfg", id), 4, 10*time.Minute)
+	}
 	if r := c.TLC(core.TLCOpts{Spec: "Loader", Cfg: "MC_Loader_nodrain.cfg", Workers: 4, Timeout: 5 * time.Minute}); r.Violated == "" {
 		c.Infra("MC_Loader_nodrain: the non-draining variant was expected to deadlock in the model")
 	}
